@@ -16,7 +16,7 @@ func c06Family(name, local string, ctors []string, near []string) *family {
 	}
 	return &family{name: name, ctors: ctors, local: local, paths: paths, names: names,
 		aliases: []string{".", "c"}, prefixes: []string{"pkg"}, maxRefs: 3, freeRefs: 2,
-		wrappers: []int{0, imp.WrapperIndex("dictkey"), imp.WrapperIndex("caseblock")}, anon: false, extra: true, last: true, doubles: true}
+		wrappers: []int{0, imp.WrapperIndex("dictkey"), imp.WrapperIndex("caseblock")}, anon: true, extra: true, last: true, doubles: true}
 }
 
 var c06Check = &impCheck{
@@ -33,7 +33,7 @@ var c06Check = &impCheck{
 		return false
 	},
 	sys: newRawSystem("NewFilePath", "a.b/c", []string{"a.b/c", "a.b/c/", "x/d1", "y/d1", "fmt"}, map[string]string{"a.b/c/": "c", "x/d1": "d1", "y/d1": "d1"},
-		[]string{".", "d1"}, []int{0, imp.WrapperIndex("dictkey")}, false, "pkg"),
+		[]string{".", "d1"}, []int{0, imp.WrapperIndex("dictkey")}, true, "pkg"),
 	bfsDepth: [2]int{4, 5},
 	dev:      [2]int{3, 4},
 	fams: []*family{
@@ -45,7 +45,7 @@ var c06Check = &impCheck{
 
 func init() {
 	register(&Check{ID: "C06", Level: "model_checking", Run: func(r *ev.Recorder) {
-		r.Rule = "(1) explicit-state BFS over one real File created with NewFilePath(\"a.b/c\"): references (plain and as Dict key) to the local path, a near miss and three other paths, ImportName, ImportAlias(p, \".\") and ImportAlias(p, d1) for every path, PackagePrefix, in every order up to the depth bound. " +
+		r.Rule = "(1) explicit-state BFS over one real File created with NewFilePath(\"a.b/c\"): references (plain and as Dict key) to the local path, a near miss and three other paths, ImportName, ImportAlias(p, \".\"), ImportAlias(p, d1) and Anon(p) for every path, PackagePrefix, in every order up to the depth bound. " +
 			"(2) canonical pre-render histories for 3 local-path families (local path a.b/c, c, x/y/c/; near misses: trailing slash, prefix, suffix, case, last element only) via NewFilePath and NewFilePathName: every reference sequence, every subset of paths declared dot-imports (last hint wins; double hints and hints after the references included), prefix on/off, within the deviation bound. " +
 			"Oracle on the parsed output: a reference to the local path is a bare identifier and no spec imports it; a reference to a path whose last hint is ImportAlias(p, \".\") is bare and exactly one spec `. \"p\"` exists; every other reference is qualified and its path imported under a name; go/types resolves every identifier (bare ones through the fabricated dot-imported package). " +
 			"distinct_nontrivial = distinct outputs containing at least one bare reference"
